@@ -5,6 +5,9 @@
 #include "vrt_st.h"
 #include "ref_text.h"
 #include "gen_text.h"
+#include "gen_scale.h"
+#include "ambient.h"
+#include <array>
 
 using vrt::Rng;
 using vrt::sfmt;
@@ -15,9 +18,13 @@ static std::string show(const S &s) { return vrt::hex(s.data(), s.size()); }
 static int sgn(long v) { return v < 0 ? -1 : v > 0 ? 1 : 0; }
 static S cut_at_nul(const S &s) { size_t z = s.find('\0'); return z == S::npos ? s : s.substr(0, z); }
 
+// set by the scale phases: where in the (big) operands the interesting offset is; appended to every violation detail
+static std::string &ctx() { static std::string c; return c; }
+struct CtxGuard { ~CtxGuard() { ctx().clear(); } };
+
 static void bad(const char *what, const S &a, const S &b, const std::string &extra)
 {
-    vrt::violation(sfmt("C06:%s", what), sfmt("a=%s b=%s %s", show(a).c_str(), show(b).c_str(), extra.c_str()));
+    vrt::violation(sfmt("C06:%s", what), sfmt("a=%s b=%s %s%s", show(a).c_str(), show(b).c_str(), extra.c_str(), ctx().c_str()));
 }
 
 #define EXPECT_EQ(what, got, want, extra)                                                          \
@@ -27,8 +34,27 @@ static void bad(const char *what, const S &a, const S &b, const std::string &ext
         if (g__ != w__) bad(what, a, b, sfmt("got=%ld want=%ld %s", g__, w__, std::string(extra).c_str())); \
     } while (0)
 
-// all agreement checks for one ordered pair of ST::strings
-static void string_pair(const ST::string &sa, const S &a, const ST::string &sb, const S &b, bool with_n)
+// unsigned lexicographic order / equality modulo ASCII case of the prefixes a[0,na) and b[0,nb) (proper prefix first)
+static int prefix_compare(const S &a, size_t na, const S &b, size_t nb)
+{
+    const size_t n = std::min(na, nb);
+    for (size_t i = 0; i < n; ++i) {
+        const unsigned char x = static_cast<unsigned char>(a[i]), y = static_cast<unsigned char>(b[i]);
+        if (x != y) return x < y ? -1 : 1;
+    }
+    return na < nb ? -1 : na > nb ? 1 : 0;
+}
+static bool prefix_fold_equal(const S &a, size_t na, const S &b, size_t nb)
+{
+    if (na != nb) return false;
+    for (size_t i = 0; i < na; ++i)
+        if (ref::fold(static_cast<unsigned char>(a[i])) != ref::fold(static_cast<unsigned char>(b[i]))) return false;
+    return true;
+}
+
+// all agreement checks for one ordered pair of ST::strings; the prefix limits are 0..max(|a|,|b|)+1 and SIZE_MAX, or the
+// ones listed in `limits` (the scale phase: limits on and around the first difference, block multiples, the two lengths)
+static void string_pair(const ST::string &sa, const S &a, const ST::string &sb, const S &b, bool with_n, const std::vector<size_t> *limits = nullptr)
 {
     const int want = ref::compare(a, b);
     const int c = sgn(sa.compare(sb));
@@ -93,18 +119,20 @@ static void string_pair(const ST::string &sa, const S &a, const ST::string &sb, 
     if (fa == fb) EXPECT_EQ("hash_i:fold-equal-strings", ST::hash_i()(sa) == ST::hash_i()(sb), 1, "");
     if (with_n) {
         size_t lim = std::max(a.size(), b.size()) + 1;
-        for (size_t n = 0; n <= lim + 1; ++n) {
-            size_t nn = n == lim + 1 ? SMAX : n;
-            const S pa = a.substr(0, std::min(nn, a.size())), pb = b.substr(0, std::min(nn, b.size()));
-            const int wn = ref::compare(pa, pb);
+        const size_t steps = limits ? limits->size() : lim + 2;
+        for (size_t n = 0; n < steps; ++n) {
+            size_t nn = limits ? (*limits)[n] : n == lim + 1 ? SMAX : n;
+            // the reference works on the prefixes in place (no copies: the operands may be a MiB long)
+            const size_t na = std::min(nn, a.size()), nb = std::min(nn, b.size()), nbc = std::min(nn, bc.size());
+            const int wn = prefix_compare(a, na, b, nb);
             std::string ex = sfmt("n=%zu", nn);
             EXPECT_EQ("compare_n:sign", sgn(sa.compare_n(sb, nn)), wn, ex);
             EXPECT_EQ("compare_n:antisymmetry", sgn(sb.compare_n(sa, nn)), -wn, ex);
-            const S pbc = bc.substr(0, std::min(nn, bc.size()));
-            EXPECT_EQ("compare_n:cstr", sgn(sa.compare_n(sb.c_str(), nn)), ref::compare(pa, pbc), ex);
-            EXPECT_EQ("compare_n:char8_t", sgn(sa.compare_n(sb.u8_str(), nn)), ref::compare(pa, pbc), ex);
+            const int wnc = prefix_compare(a, na, bc, nbc);
+            EXPECT_EQ("compare_n:cstr", sgn(sa.compare_n(sb.c_str(), nn)), wnc, ex);
+            EXPECT_EQ("compare_n:char8_t", sgn(sa.compare_n(sb.u8_str(), nn)), wnc, ex);
             const int cn = sgn(sa.compare_ni(sb, nn));
-            EXPECT_EQ("compare_ni:zero-iff-fold-equal", cn == 0, ref::folded(pa) == ref::folded(pb), ex);
+            EXPECT_EQ("compare_ni:zero-iff-fold-equal", cn == 0, prefix_fold_equal(a, na, b, nb), ex);
             EXPECT_EQ("compare_ni:antisymmetry", sgn(sb.compare_ni(sa, nn)), -cn, ex);
             EXPECT_EQ("compare_n:ci-param", sgn(sa.compare_n(sb, nn, ST::case_insensitive)), cn, ex);
             if (bc.size() == b.size()) {
@@ -120,8 +148,8 @@ static void case_map(const ST::string &sa, const S &a)
 {
     const S &b = a;
     ST::string up = sa.to_upper(), lo = sa.to_lower();
-    EXPECT_EQ("to_upper", vrt::str_of(up) == ref::uppered(a), 1, "got=" + vrt::hex(up.c_str(), up.size()));
-    EXPECT_EQ("to_lower", vrt::str_of(lo) == ref::folded(a), 1, "got=" + vrt::hex(lo.c_str(), lo.size()));
+    EXPECT_EQ("to_upper", vrt::str_of(up) == ref::uppered(a), 1, "got=" + vrt::hex(up.c_str(), up.size()) + " first difference from the expected text: " + scale::brief(vrt::str_of(up), scale::first_diff(vrt::str_of(up), ref::uppered(a))));
+    EXPECT_EQ("to_lower", vrt::str_of(lo) == ref::folded(a), 1, "got=" + vrt::hex(lo.c_str(), lo.size()) + " first difference from the expected text: " + scale::brief(vrt::str_of(lo), scale::first_diff(vrt::str_of(lo), ref::folded(a))));
     EXPECT_EQ("to_upper:terminator", up.c_str()[up.size()], 0, "");
     EXPECT_EQ("to_lower:terminator", lo.c_str()[lo.size()], 0, "");
     EXPECT_EQ("hash_i:of-upper", ST::hash_i()(up) == ST::hash_i()(sa), 1, "");
@@ -134,16 +162,19 @@ static void case_map(const ST::string &sa, const S &a)
 }
 
 // ---------------------------------------------------------------- buffers
+// order of the prefixes a[0,na) and b[0,nb): units by std::char_traits<T>::lt, proper prefix first
 template <typename T>
-static int ref_cmp(const std::basic_string<T> &a, const std::basic_string<T> &b)
+static int ref_cmp(const std::basic_string<T> &a, size_t na, const std::basic_string<T> &b, size_t nb)
 {
-    size_t n = std::min(a.size(), b.size());
+    size_t n = std::min(na, nb);
     for (size_t i = 0; i < n; ++i) {
         if (std::char_traits<T>::lt(a[i], b[i])) return -1;
         if (std::char_traits<T>::lt(b[i], a[i])) return 1;
     }
-    return a.size() < b.size() ? -1 : a.size() > b.size() ? 1 : 0;
+    return na < nb ? -1 : na > nb ? 1 : 0;
 }
+template <typename T>
+static int ref_cmp(const std::basic_string<T> &a, const std::basic_string<T> &b) { return ref_cmp(a, a.size(), b, b.size()); }
 template <typename T>
 static std::basic_string<T> cut0(const std::basic_string<T> &s)
 {
@@ -200,7 +231,7 @@ static void equal_values_with_history(const char *tn)
 }
 
 template <typename T>
-static void buffer_pair(const char *tn, const std::basic_string<T> &a, const std::basic_string<T> &b)
+static void buffer_pair(const char *tn, const std::basic_string<T> &a, const std::basic_string<T> &b, const std::vector<size_t> *limits = nullptr)
 {
     typedef ST::buffer<T> B;
     typedef std::basic_string<T> BS;
@@ -208,7 +239,7 @@ static void buffer_pair(const char *tn, const std::basic_string<T> &a, const std
     auto fail = [&](const char *what, long got, long want, const std::string &ex) {
         vrt::violation(sfmt("C06:buffer<%s>:%s", tn, what),
                        sfmt("a=%s b=%s got=%ld want=%ld %s", vrt::hex(a.data(), a.size(), sizeof(T)).c_str(),
-                            vrt::hex(b.data(), b.size(), sizeof(T)).c_str(), got, want, ex.c_str()));
+                            vrt::hex(b.data(), b.size(), sizeof(T)).c_str(), got, want, (ex + ctx()).c_str()));
     };
 #define BEQ(what, got, want, ex) do { long g__ = static_cast<long>(got), w__ = static_cast<long>(want); vrt::evals(); if (g__ != w__) fail(what, g__, w__, ex); } while (0)
     const int want = ref_cmp(a, b);
@@ -229,13 +260,15 @@ static void buffer_pair(const char *tn, const std::basic_string<T> &a, const std
     const BS bc = cut0(b);
     BEQ("compare:cstr", sgn(ba->compare(bb->c_str())), ref_cmp(a, bc), "");
     size_t lim = std::max(a.size(), b.size()) + 1;
-    for (size_t n = 0; n <= lim + 1; ++n) {
-        size_t nn = n == lim + 1 ? SMAX : n;
-        BS pa = a.substr(0, std::min(nn, a.size())), pb = b.substr(0, std::min(nn, b.size())), pbc = bc.substr(0, std::min(nn, bc.size()));
+    const size_t steps = limits ? limits->size() : lim + 2;
+    for (size_t n = 0; n < steps; ++n) {
+        size_t nn = limits ? (*limits)[n] : n == lim + 1 ? SMAX : n;
+        const size_t na = std::min(nn, a.size()), nb = std::min(nn, b.size()), nbc = std::min(nn, bc.size());
+        const int wn = ref_cmp(a, na, b, nb);
         std::string ex = sfmt("n=%zu", nn);
-        BEQ("compare_n:sign", sgn(ba->compare_n(*bb, nn)), ref_cmp(pa, pb), ex);
-        BEQ("compare_n:static", sgn(B::compare(a.data(), a.size(), b.data(), b.size(), nn)), ref_cmp(pa, pb), ex);
-        BEQ("compare_n:cstr", sgn(ba->compare_n(bb->c_str(), nn)), ref_cmp(pa, pbc), ex);
+        BEQ("compare_n:sign", sgn(ba->compare_n(*bb, nn)), wn, ex);
+        BEQ("compare_n:static", sgn(B::compare(a.data(), a.size(), b.data(), b.size(), nn)), wn, ex);
+        BEQ("compare_n:cstr", sgn(ba->compare_n(bb->c_str(), nn)), ref_cmp(a, na, bc, nbc), ex);
     }
     // The same two values held by objects with a history (a value assigned over another one, a cleared or re-allocated
     // object, the moved-from source of a move): order and equality are functions of the value alone.
@@ -376,8 +409,385 @@ static void huge_case_insensitive()
     });
 }
 
+
+// ---------------------------------------------------------------- scale phases
+// Families of big strings (and buffers) that agree - exactly or modulo ASCII case - on a prefix of 4 KiB .. 1 MiB and then
+// differ in one planted unit.  The case index walks a grid: block size B x multiple q x the point the blocks are counted
+// from (the beginning / the end of the common length / the first case-sensitive difference); the planted difference sits
+// 1, 2, a few ... B units in front of the multiple, the "long" members of the family reach the multiple, the "short" ones
+// end between the difference and the multiple.  So for a blocked / thresholded implementation the deciding unit lies in a
+// complete block for a long-long pair and in the trailing partial block for a long-short pair of the same family.
+namespace sc {
+
+struct Feature { unsigned char b[3]; const char *cls; };
+static const Feature features[] = {
+    // a byte >= 0x80 against ASCII bytes
+    {{0xC3, '0', 'a'}, "high_vs_ascii"}, {{0xE9, ' ', 'z'}, "high_vs_ascii"}, {{0x80, 0x01, 'M'}, "high_vs_ascii"},
+    {{0xFF, '_', 'q'}, "high_vs_ascii"}, {{0xDD, 'A', 'b'}, "high_vs_ascii"}, {{0x80, 0xFF, 'k'}, "high_vs_ascii"}, {{0xC3, 0x7F, 0x7E}, "high_vs_ascii"},
+    // letters that differ only in case (and a third unit that differs for real)
+    {{'a', 'A', 'b'}, "case_only"}, {{'i', 'I', 'j'}, "case_only"}, {{'Z', 'z', 'Y'}, "case_only"}, {{'k', 'K', 0xCB}, "case_only"}, {{'I', 'i', 0xFD}, "case_only"},
+    // non-letters that differ only in bit 0x20
+    {{'@', '`', 'A'}, "bit5_non_letter"}, {{'[', '{', 'Z'}, "bit5_non_letter"}, {{0xC3, 0xE3, 'c'}, "bit5_non_letter"}, {{0xDD, 0xFD, 'i'}, "bit5_non_letter"},
+    {{'^', '~', '>'}, "bit5_non_letter"}, {{0x10, '0', 'P'}, "bit5_non_letter"}, {{'_', 0x7F, '?'}, "bit5_non_letter"}, {{0xC9, 0xE9, 0xA9}, "bit5_non_letter"},
+    // plain differences whose case-sensitive and case-insensitive order disagree / agree
+    {{'a', 'b', 'C'}, "plain"}, {{'Z', 'a', 'B'}, "plain"}, {{'1', '2', '3'}, "plain"},
+};
+static const size_t n_features = sizeof(features) / sizeof(features[0]);
+
+static bool is_letter(unsigned char c) { return (c >= 'A' && c <= 'Z') || (c >= 'a' && c <= 'z'); }
+
+// every kind of byte at every offset: letters of both cases, the bit-0x20 twins of non-letters, UTF-8, bytes >= 0xC0
+static S background(Rng &r, size_t len, unsigned kind)
+{
+    S s(len, 'x');
+    switch (kind) {
+    case 0: s.assign(len, "xXm_\xe9"[r.below(5)]); break;
+    case 1: for (auto &c : s) { const uint64_t v = r.next(); c = (v & 7) == 0 ? ' ' : static_cast<char>(((v & 8) ? 'A' : 'a') + (v >> 8) % 26); } break;
+    case 2: {   // all byte values but NUL
+        size_t i = 0;
+        while (i < len) { uint64_t v = r.next(); for (int k = 0; k < 8 && i < len; ++k, v >>= 8) s[i++] = static_cast<char>((v & 0xFF) ? (v & 0xFF) : 0x20); }
+        break;
+    }
+    case 3: s = scale::utf8_background(r, len, r.chance(1, 2) ? scale::MIXED_UTF8 : scale::TWO_BYTE_RUN); break;
+    case 4: { static const S al = "@`[{^~_\x7fiIkKzZaA"; for (auto &c : s) c = al[r.next() % al.size()]; break; }
+    default: for (auto &c : s) c = static_cast<char>(0xC0 + r.next() % 0x40); break;
+    }
+    return s;
+}
+
+// a handful of prefix limits: on and around the deciding offset, the block multiples, the two lengths, beyond 2^31 / 2^32
+static std::vector<size_t> limits(Rng &r, size_t d, size_t B, size_t edge, size_t la, size_t lb, size_t keep)
+{
+    std::vector<size_t> must = {d, d + 1, edge, SMAX};
+    std::vector<size_t> more = {0, 1, d ? d - 1 : 0, d + 2, edge ? edge - 1 : 0, edge + 1, edge > B ? edge - B : B, edge + B, la, la + 1, la ? la - 1 : 0, lb, lb + 1, lb ? lb - 1 : 0,
+                                SMAX - 1, (size_t(1) << 32) + 1, (size_t(1) << 32) + d / 2, size_t(1) << 31, (size_t(1) << 16) + d % 7, r.below(std::max(la, lb) + 2), r.below(d + 1)};
+    while (must.size() < keep && !more.empty()) {
+        const size_t k = r.below(more.size());
+        if (std::find(must.begin(), must.end(), more[k]) == must.end()) must.push_back(more[k]);
+        more.erase(more.begin() + static_cast<long>(k));
+    }
+    return must;
+}
+
+struct Grid { size_t B, q, D; unsigned kind; };
+static Grid grid(uint64_t i, size_t cap, unsigned kinds)
+{
+    const std::vector<size_t> &BL = scale::blocks();
+    Grid g;
+    g.B = BL[i % BL.size()];
+    while (g.B > cap) g.B /= 2;
+    g.q = 1 + (i / BL.size()) % 8;
+    if (g.q * g.B > cap) g.q = 1 + (g.q - 1) % (cap / g.B);
+    g.D = g.q * g.B;
+    g.kind = static_cast<unsigned>((i / (BL.size() * 8)) % kinds);
+    return g;
+}
+static const char *kind_name(unsigned k) { return k == 0 ? "beginning" : k == 1 ? "end_of_common_length" : "first_case_sensitive_difference"; }
+
+// distance of the deciding unit in front of the multiple: 1..B
+static size_t back_off(Rng &r, size_t B)
+{
+    switch (r.below(10)) {
+    case 0: case 1: case 2: return 2;
+    case 3: return 1;
+    case 4: return 3 + r.below(7);
+    case 5: return B / 2;
+    case 6: case 7: return 1 + r.below(B);
+    case 8: return B;
+    default: return 2 + r.below(3);
+    }
+}
+
+// lengths of the long members (reach the multiple `edge`) and the short ones (end between the deciding unit and the multiple)
+struct Layout { size_t d, edge, run; size_t len[6]; bool real_short; };
+static Layout layout(Rng &r, const Grid &g)
+{
+    Layout L;
+    L.run = 0;
+    const size_t B = g.B, extra_cap = std::min<size_t>(B, 70000);
+    if (g.kind == 1) {
+        // blocks counted back from the end of the common length: the head [0, m % B) is the partial block
+        const size_t dsel[] = {0, 1, 2 + r.below(8), B / 2, r.below(B - 1), B - 2};
+        L.d = std::min(dsel[r.below(6)], B - 2);
+        L.edge = g.D;
+        for (int k = 0; k < 3; ++k) { const size_t r1 = r.chance(1, 2) ? L.d : r.chance(1, 2) ? 0 : L.d - r.below(std::min<size_t>(L.d, 9) + 1); L.len[k] = g.D + r1; }
+        for (int k = 3; k < 6; ++k) { const size_t r2 = r.chance(1, 3) ? L.d + 1 : r.chance(1, 2) ? B - 1 : L.d + 1 + r.below(B - 1 - L.d); L.len[k] = (g.q - 1) * B + r2; }
+        L.real_short = true;
+        return L;
+    }
+    const size_t t = back_off(r, B);
+    if (g.kind == 2) L.run = 1 + (r.chance(1, 2) ? r.below(64) : r.below(5000));
+    L.edge = L.run + g.D;
+    L.d = L.edge - t;
+    for (int k = 0; k < 3; ++k) {
+        size_t x;
+        switch (r.below(5)) { case 0: x = 0; break; case 1: x = 1; break; case 2: x = 2 + r.below(8); break; case 3: x = r.below(extra_cap + 1); break; default: x = extra_cap; break; }
+        L.len[k] = L.edge + x;
+    }
+    L.real_short = t >= 2;
+    for (int k = 3; k < 6; ++k)
+        L.len[k] = !L.real_short ? L.edge : r.chance(1, 3) ? L.d + 1 : r.chance(1, 2) ? L.edge - 1 : L.d + 1 + r.below(L.edge - 1 - L.d);
+    return L;
+}
+
+static void string_case(uint64_t i, Rng &r)
+{
+    CtxGuard guard;
+    const Grid g = grid(i, size_t(1) << 20, 3);
+    const Layout L = layout(r, g);
+    const size_t d = L.d;
+    Feature f = features[r.below(n_features)];
+    for (int k = 2; k > 0; --k) std::swap(f.b[k], f.b[r.below(static_cast<uint64_t>(k) + 1)]);
+    const unsigned bg = static_cast<unsigned>(r.below(6));
+    size_t len[7];
+    for (int k = 0; k < 6; ++k) len[k] = L.len[k];
+    if (r.chance(1, 2)) len[1] = len[0];          // same-length members: fold-equal pairs when the feature is a case pair
+    const size_t maxlen = *std::max_element(len, len + 6);
+    S base = background(r, maxlen, bg);
+    if (r.chance(1, 8) && maxlen > 1) { base[scale::offset_any(r, maxlen - 1)] = '\0'; vrt::count("scale.with_NUL"); }
+    // how the members' common prefix differs in case
+    enum { IDENTICAL, ONE_FLIP, RANDOM_CASE };
+    const unsigned pmode = d == 0 ? IDENTICAL : static_cast<unsigned>(r.below(10) < 4 ? IDENTICAL : r.below(2) ? ONE_FLIP : RANDOM_CASE);
+    size_t flip_at[6] = {0, 0, 0, 0, 0, 0};
+    if (pmode == ONE_FLIP)
+        for (int k = 1; k < 6; ++k) { flip_at[k] = std::min(scale::offset_any(r, d - 1), d - 1); base[flip_at[k]] = static_cast<char>('a' + r.below(26)); }
+    if (g.kind == 2) base[L.run] = static_cast<char>('a' + r.below(26));
+    // what follows the deciding unit: the same text for everybody / a unit ordered the other way round / noise
+    enum { TAIL_SAME, TAIL_OPPOSITE, TAIL_NOISE };
+    const unsigned tmode = static_cast<unsigned>(r.below(4) < 2 ? TAIL_SAME : r.below(2) ? TAIL_OPPOSITE : TAIL_NOISE);
+    std::vector<S> str(7);
+    for (int k = 0; k < 6; ++k) {
+        S &s = str[k];
+        s = base.substr(0, len[k]);
+        const size_t pre = std::min(d, s.size());
+        if (pmode == ONE_FLIP && k > 0 && flip_at[k] < pre) s[flip_at[k]] ^= 0x20;
+        if (pmode == RANDOM_CASE) {
+            const unsigned how = static_cast<unsigned>((k + k / 3) % 3);
+            if (how == 1) for (size_t j = 0; j < pre; ++j) { if (is_letter(static_cast<unsigned char>(s[j]))) s[j] &= ~0x20; }
+            if (how == 2) for (size_t j = 0; j < pre; ++j) { if (is_letter(static_cast<unsigned char>(s[j])) && (r.next() & 1)) s[j] ^= 0x20; }
+        }
+        if (g.kind == 2 && (k & 1) && L.run < pre) s[L.run] ^= 0x20;
+        const unsigned char unit = f.b[k % 3];
+        s[d] = static_cast<char>(unit);
+        if (tmode == TAIL_OPPOSITE && d + 1 < s.size()) {
+            unsigned rank = 0;
+            for (int j = 0; j < 3; ++j) rank += f.b[j] < unit;
+            s[d + 1] = "741"[rank];
+        } else if (tmode == TAIL_NOISE) {
+            static const S al = "abAB01\xc3\xa9";
+            for (size_t j = d + 1; j < s.size() && j < d + 49; ++j) s[j] = al[r.below(al.size())];
+        }
+    }
+    {   // a proper prefix of member 0, shorter by a power of two (a length difference that is 0 in a narrow type)
+        static const size_t deltas[] = {1, 128, 255, 256, 32768, 65535, 65536, 131072};
+        size_t delta = r.chance(1, 4) ? g.B : r.pick(deltas);
+        if (delta >= len[0]) delta = 1;
+        len[6] = len[0] - delta;
+        str[6] = str[0].substr(0, len[6]);
+    }
+    const std::string where = sfmt(" [scale: block %zu x %zu counted from the %s, deciding offset %zu, multiple at %zu, units there %02x/%02x/%02x (%s), lengths %zu %zu %zu | %zu %zu %zu | %zu, background %u, prefix mode %u, tail mode %u]",
+                                   g.B, g.q, kind_name(g.kind), d, L.edge, f.b[0], f.b[1], f.b[2], f.cls, len[0], len[1], len[2], len[3], len[4], len[5], len[6], bg, pmode, tmode);
+    vrt::cur_printf("%s member0 %s\n", where.c_str(), scale::brief(str[0], d).c_str());
+    std::vector<std::unique_ptr<vrt::Box<ST::string>>> obj;
+    std::vector<S> fold(7);
+    for (int k = 0; k < 7; ++k) { obj.emplace_back(new vrt::Box<ST::string>(vrt::mk(str[k]))); fold[k] = ref::folded(str[k]); }
+
+    // the whole family against itself: sign / zero-iff-(fold-)equal, antisymmetry, transitivity over every triple
+    const size_t nlim = r.chance(1, 2) ? SMAX : r.chance(1, 2) ? L.edge + r.below(2) : maxlen;
+    int cs[7][7], ci[7][7], cn[7][7];
+    for (int j = 0; j < 7; ++j)
+        for (int k = 0; k < 7; ++k) {
+            cs[j][k] = sgn((*obj[j])->compare(**obj[k]));
+            ci[j][k] = sgn((*obj[j])->compare_i(**obj[k]));
+            cn[j][k] = sgn((*obj[j])->compare_ni(**obj[k], nlim));
+        }
+    auto member = [&](int k) { return sfmt("#%d %s", k, scale::brief(str[k], std::min(d, str[k].size())).c_str()); };
+    auto pair_bad = [&](const char *what, int j, int k, int got, int want) {
+        vrt::violation(sfmt("C06:%s", what), sfmt("a=%s b=%s got=%d want=%d%s", member(j).c_str(), member(k).c_str(), got, want, where.c_str()));
+    };
+    for (int j = 0; j < 7; ++j)
+        for (int k = 0; k < 7; ++k) {
+            vrt::evals(6);
+            if (cs[j][k] != ref::compare(str[j], str[k])) pair_bad("compare:sign", j, k, cs[j][k], ref::compare(str[j], str[k]));
+            if (cs[k][j] != -cs[j][k]) pair_bad("compare:antisymmetry", j, k, cs[k][j], -cs[j][k]);
+            if ((ci[j][k] == 0) != (fold[j] == fold[k])) pair_bad("compare_i:zero-iff-fold-equal", j, k, ci[j][k] == 0, fold[j] == fold[k]);
+            if (ci[k][j] != -ci[j][k]) pair_bad("compare_i:antisymmetry", j, k, ci[k][j], -ci[j][k]);
+            const bool feq = fold[j].compare(0, nlim, fold[k], 0, nlim) == 0;
+            if ((cn[j][k] == 0) != feq) pair_bad("compare_ni:zero-iff-fold-equal", j, k, cn[j][k] == 0, feq);
+            if (cn[k][j] != -cn[j][k]) pair_bad("compare_ni:antisymmetry", j, k, cn[k][j], -cn[j][k]);
+            if (j != k && fold[j] == fold[k]) vrt::count("scale.fold_equal_pairs");
+        }
+    for (int a = 0; a < 7; ++a)
+        for (int b = 0; b < 7; ++b)
+            for (int c = 0; c < 7; ++c) {
+                vrt::evals(3);
+                auto tri = [&](const char *what) {
+                    vrt::violation(sfmt("C06:%s:transitivity", what), sfmt("a=%s b=%s c=%s: a<=b, b<=c but a>c%s", member(a).c_str(), member(b).c_str(), member(c).c_str(), where.c_str()));
+                };
+                if (ci[a][b] <= 0 && ci[b][c] <= 0 && ci[a][c] > 0) tri("compare_i");
+                if (cs[a][b] <= 0 && cs[b][c] <= 0 && cs[a][c] > 0) tri("compare");
+                if (cn[a][b] <= 0 && cn[b][c] <= 0 && cn[a][c] > 0) tri("compare_ni");
+            }
+    vrt::count("scale.families");
+    vrt::count("scale.family_triples", 7 * 7 * 7);
+    vrt::count("string.triples", 7 * 7 * 7);
+
+    // the full per-pair monitor on a few ordered pairs (fewer, with fewer limits, the bigger they are)
+    static const int pairs[][2] = {{0, 1}, {0, 4}, {0, 6}, {3, 2}, {5, 4}, {1, 2}, {2, 2}, {4, 0}};
+    const size_t npairs = d >= (512u << 10) ? 2 : d >= (128u << 10) ? 3 : d >= (16u << 10) ? 5 : 8;
+    const size_t nlims = d >= (256u << 10) ? 8 : d >= (32u << 10) ? 12 : 20;
+    for (size_t p = 0; p < npairs; ++p) {
+        const int j = pairs[p][0], k = pairs[p][1];
+        const std::vector<size_t> lims = limits(r, d, g.B, L.edge, len[j], len[k], nlims);
+        ctx() = sfmt(" members %d,%d: a around the offset: %s; b: %s;%s", j, k, scale::brief(str[j], std::min(d, len[j])).c_str(), scale::brief(str[k], std::min(d, len[k])).c_str(), where.c_str());
+        string_pair(**obj[j], str[j], **obj[k], str[k], true, &lims);
+        vrt::count("scale.string_pairs");
+        vrt::count("string.pairs");
+        vrt::count("scale.limit_steps", lims.size());
+        if (fold[j] == fold[k] && str[j] != str[k]) vrt::count("string.fold_equal_pairs");
+    }
+    // case mapping: only ASCII letters may change, at every offset
+    for (int k : {0, 4}) {
+        if (k == 4 && d >= (256u << 10)) break;
+        ctx() = sfmt(" member %d: %s;%s", k, scale::brief(str[k], std::min(d, len[k])).c_str(), where.c_str());
+        case_map(**obj[k], str[k]);
+        vrt::count("scale.casemap.strings");
+        vrt::count("casemap.strings");
+    }
+    ctx().clear();
+    for (int k = 0; k < 7; ++k)
+        if (vrt::str_of(**obj[k]) != str[k]) vrt::violation("C06:operand-changed", member(k) + where);
+
+    vrt::count("scale.cases");
+    vrt::count(sfmt("scale.counted_from.%s", kind_name(g.kind)));
+    vrt::count(sfmt("scale.feature.%s", f.cls));
+    vrt::count(sfmt("scale.prefix_case.%s", pmode == IDENTICAL ? "identical" : pmode == ONE_FLIP ? "one_flip_per_member" : "random"));
+    if (L.real_short) vrt::count("scale.deciding_unit_in_full_and_in_partial_block");
+    if (d >= 4096) vrt::count("scale.common_prefix>=4KiB");
+    if (d >= 65536) vrt::count("scale.common_prefix>=64KiB");
+    if (d >= (512u << 10)) vrt::count("scale.common_prefix>=512KiB");
+    vrt::distinct(vrt::fnv1a(str[4].data(), str[4].size(), vrt::fnv1a(str[0].data(), str[0].size(), 34)));
+    if (vrt::want_sample("scale")) vrt::sample("scale", "member0 " + scale::brief(str[0], d) + where);
+}
+
+// ---- buffers: three values (long, short, long) + a proper prefix, every pair through the per-pair monitor
+template <typename T>
+static void buffer_case(const char *tn, const std::vector<std::array<T, 3>> &feats, const std::vector<T> &alpha, size_t cap, uint64_t i, Rng &r)
+{
+    typedef std::basic_string<T> BS;
+    CtxGuard guard;
+    Grid g = grid(i, cap, 1);
+    g.kind = r.chance(1, 3) ? 1 : 0;
+    const Layout L = layout(r, g);
+    const size_t d = L.d;
+    std::array<T, 3> f = feats[r.below(feats.size())];
+    for (int k = 2; k > 0; --k) std::swap(f[k], f[r.below(static_cast<uint64_t>(k) + 1)]);
+    const size_t len[3] = {L.len[0], L.len[4], L.len[2]};
+    const size_t maxlen = std::max(len[0], std::max(len[1], len[2]));
+    BS base(maxlen, alpha[r.below(alpha.size())]);
+    const unsigned bg = static_cast<unsigned>(r.below(3));
+    if (bg == 1) for (auto &c : base) c = alpha[r.next() % alpha.size()];
+    if (bg == 2) for (auto &c : base) c = static_cast<T>((r.next() & 0x7F7F7F7Full) | 1);      // never zero, never negative
+    if (r.chance(1, 8) && maxlen > 1) { base[scale::offset_any(r, maxlen - 1)] = T(); vrt::count("scale.buffer.with_zero_unit"); }
+    const unsigned tmode = static_cast<unsigned>(r.below(3));
+    BS v[4];
+    for (int k = 0; k < 3; ++k) {
+        v[k] = base.substr(0, len[k]);
+        v[k][d] = f[k];
+        if (tmode == 1 && d + 1 < v[k].size()) {
+            unsigned rank = 0;
+            for (int j = 0; j < 3; ++j) rank += std::char_traits<T>::lt(f[j], f[k]);
+            v[k][d + 1] = static_cast<T>("741"[rank]);
+        } else if (tmode == 2) {
+            for (size_t j = d + 1; j < v[k].size() && j < d + 33; ++j) v[k][j] = alpha[r.below(alpha.size())];
+        }
+    }
+    {
+        static const size_t deltas[] = {1, 128, 255, 256, 32768, 65535, 65536, 131072};
+        size_t delta = r.chance(1, 4) ? g.B : r.pick(deltas);
+        if (delta >= len[0]) delta = 1;
+        v[3] = v[0].substr(0, len[0] - delta);
+    }
+    const std::string where = sfmt(" [scale: buffer<%s>, block %zu x %zu counted from the %s, deciding offset %zu, multiple at %zu, units there %llx/%llx/%llx, lengths %zu %zu %zu %zu, background %u, tail mode %u]",
+                                   tn, g.B, g.q, kind_name(g.kind), d, L.edge, static_cast<unsigned long long>(f[0]), static_cast<unsigned long long>(f[1]), static_cast<unsigned long long>(f[2]),
+                                   v[0].size(), v[1].size(), v[2].size(), v[3].size(), bg, tmode);
+    vrt::cur_printf("%s\n", where.c_str());
+    static const int pairs[][2] = {{0, 2}, {0, 1}, {1, 2}, {0, 3}, {2, 2}, {1, 0}};
+    const size_t bytes = d * sizeof(T);
+    const size_t npairs = bytes >= (1u << 20) ? 3 : bytes >= (128u << 10) ? 4 : 6;
+    const size_t nlims = bytes >= (256u << 10) ? 8 : bytes >= (32u << 10) ? 12 : 20;
+    for (size_t p = 0; p < npairs; ++p) {
+        const int j = pairs[p][0], k = pairs[p][1];
+        const std::vector<size_t> lims = limits(r, d, g.B, L.edge, v[j].size(), v[k].size(), nlims);
+        const size_t dj = std::min(d, v[j].size()), dk = std::min(d, v[k].size());
+        ctx() = sfmt(" members %d,%d: a[%zu..]=%s b[%zu..]=%s;%s", j, k, dj > 4 ? dj - 4 : 0, vrt::hex(v[j].data() + (dj > 4 ? dj - 4 : 0), std::min<size_t>(8, v[j].size() - (dj > 4 ? dj - 4 : 0)), sizeof(T)).c_str(),
+                     dk > 4 ? dk - 4 : 0, vrt::hex(v[k].data() + (dk > 4 ? dk - 4 : 0), std::min<size_t>(8, v[k].size() - (dk > 4 ? dk - 4 : 0)), sizeof(T)).c_str(), where.c_str());
+        buffer_pair<T>(tn, v[j], v[k], &lims);
+        vrt::count(std::string("scale.buffer.pairs.") + tn);
+    }
+    ctx().clear();
+    vrt::count("scale.buffer.cases");
+    if (L.real_short) vrt::count("scale.buffer.deciding_unit_in_full_and_in_partial_block");
+    if (bytes >= 65536) vrt::count("scale.buffer.common_prefix>=64KiB");
+    vrt::distinct(vrt::fnv1a(v[1].data(), v[1].size() * sizeof(T), vrt::fnv1a(v[0].data(), v[0].size() * sizeof(T), vrt::fnv_str(tn, 35))));
+    if (vrt::want_sample(std::string("scale_buffer_") + tn, 1)) vrt::sample(std::string("scale_buffer_") + tn, where, 1);
+}
+
+template <typename T>
+static void buffer_phase(const char *tn, const std::vector<std::array<T, 3>> &feats, const std::vector<T> &alpha, size_t cap)
+{
+    const std::string name = std::string("scale_buffer_") + tn;
+    vrt::require(std::string("scale.buffer.pairs.") + tn, std::max<uint64_t>(1, static_cast<uint64_t>(300 * std::min(1.0, vrt::opt().scale))));
+    vrt::phase(name.c_str(), vrt::tier_count(168, 168 * 20), [&](uint64_t i, Rng &r) { buffer_case<T>(tn, feats, alpha, cap, i, r); });
+}
+
+} // namespace sc
+
+static void scale_phases()
+{
+    // (the minimum event counts shrink with --scale like the phases do)
+    auto need = [](uint64_t n) { const double f = std::min(1.0, vrt::opt().scale); return std::max<uint64_t>(1, static_cast<uint64_t>(static_cast<double>(n) * f)); };
+    vrt::require("scale.cases", need(300));
+    vrt::require("scale.families", need(300));
+    vrt::require("scale.string_pairs", need(1000));
+    vrt::require("scale.casemap.strings", need(300));
+    vrt::require("scale.deciding_unit_in_full_and_in_partial_block", need(200));
+    vrt::require("scale.common_prefix>=4KiB", need(100));
+    vrt::require("scale.common_prefix>=64KiB", need(50));
+    vrt::require("scale.common_prefix>=512KiB", need(5));
+    vrt::require("scale.feature.high_vs_ascii", need(50));
+    vrt::require("scale.feature.case_only", need(40));
+    vrt::require("scale.feature.bit5_non_letter", need(50));
+    vrt::require("scale.fold_equal_pairs", need(60));
+    vrt::require("scale.counted_from.beginning", need(100));
+    vrt::require("scale.counted_from.end_of_common_length", need(100));
+    vrt::require("scale.counted_from.first_case_sensitive_difference", need(100));
+    vrt::require("scale.buffer.cases", need(600));
+    vrt::require("scale.buffer.deciding_unit_in_full_and_in_partial_block", need(300));
+    vrt::require("scale.buffer.common_prefix>=64KiB", need(100));
+    vrt::note("scale: families of 7 strings (3 long, 3 short, 1 proper prefix) sharing a (case-folded) prefix of up to 1 MiB, one planted deciding unit in front of a multiple of a block size "
+              "(grid: 21 block sizes x multiples 1..8 x blocks counted from the beginning / the end of the common length / the first case-sensitive difference); the whole family through "
+              "compare / compare_i / compare_ni (sign, zero-iff-fold-equal, antisymmetry, transitivity on all 343 triples), selected pairs through the full per-pair monitor with limits on and "
+              "around the deciding offset and the multiples, to_upper / to_lower / hashes on the big members; the same for buffers of the four element types");
+    vrt::phase("scale", vrt::tier_count(504, 504 * 24), sc::string_case);
+
+    typedef std::array<char, 3> C3;
+    sc::buffer_phase<char>("char", {C3{char(0xC3), '0', 'a'}, C3{char(0x80), 0x7f, 0x01}, C3{char(0xff), 0x01, 'A'}, C3{'a', 'A', 'b'}, C3{'@', '`', '['}},
+                           {'x', 'A', 'a', 0x7f, char(0x80), char(0xff), 1}, size_t(1) << 20);
+    typedef std::array<wchar_t, 3> W3;
+    sc::buffer_phase<wchar_t>("wchar_t", {W3{0x100, 0xFF, 0x101}, W3{0x10000, 0xFFFF, 0x7FFFFFFF}, W3{0x80, 0x7f, L'a'}, W3{L'a', L'A', L'b'}, W3{0x0141, 0x0241, 0x0142}},
+                              {L'x', 1, L'A', 0x7f, 0x80, 0xff, 0xd800, 0xffff, 0x10ffff}, size_t(1) << 18);
+    typedef std::array<char16_t, 3> U3;
+    sc::buffer_phase<char16_t>("char16_t", {U3{0x8000, 0x7FFF, 0xFFFF}, U3{0x100, 0xFF, 0x101}, U3{0xD800, 0xE000, 0xDBFF}, U3{u'a', u'A', 0x80}, U3{0x0141, 0x0241, 0x0142}},
+                               {u'x', 1, u'A', 0x7f, 0x80, 0xff, 0xd800, 0x8000, 0xffff}, size_t(1) << 18);
+    typedef std::array<char32_t, 3> V3;
+    sc::buffer_phase<char32_t>("char32_t", {V3{0x80000000u, 0x7FFFFFFF, 0xFFFFFFFFu}, V3{0x10000, 0xFFFF, 0x10FFFF}, V3{0x100, 0xFF, 0x101}, V3{U'a', U'A', 0x80}, V3{0x01000041, 0x02000041, 0x01000042}},
+                               {U'x', 1, U'A', 0x7f, 0x80, 0xffff, 0x10ffff, 0x7fffffff, 0x80000000u, 0xffffffffu}, size_t(1) << 18);
+}
+
 static void body()
 {
+    ambient::enable(3);
     vrt::require("string.pairs", 10000);
     vrt::require("string.fold_equal_pairs", 100);
     vrt::require("string.triples", 3000);
@@ -389,6 +799,8 @@ static void body()
     vrt::require("buffer.pairs.char16_t", 1000);
     vrt::require("buffer.pairs.char32_t", 1000);
     vrt::require("casemap.strings", 100);
+    vrt::require("string.locale_sensitive_pairs_under_hostile_locale", 1000);
+    vrt::require("casemap.strings_under_hostile_locale", 20);
 
     S alpha;
     for (int c : {0x00, 0x01, 0x40, 0x41, 0x5A, 0x5B, 0x60, 0x61, 0x7A, 0x7B, 0x7F, 0x80, 0xC3, 0xFF}) alpha.push_back(static_cast<char>(c));
@@ -471,6 +883,33 @@ static void body()
         }
         vrt::distinct(vrt::fnv_u64(byte, 33));
     });
+
+    // the bytes a hostile global locale treats differently (Latin-1 style letters 0xC0..0xFE and their bit-0x20 twins,
+    // Turkish-style I / i): all ordered pairs of the strings of length <= 2 over them, one case in three under that locale
+    {
+        const S lal = "Ii\xc3\xe3\xdd\xfd\xdf\xffk";
+        const uint64_t ln = gen::count_strings(lal.size(), 2);
+        vrt::require("string.locale_sensitive_pairs", 5000);
+        vrt::phase("string_pairs_locale_sensitive", ln * 3, [&](uint64_t i, Rng &) {
+            S a, b;
+            gen::nth_string(i % ln, lal, 2, a);
+            vrt::Box<ST::string> sa(vrt::mk(a));
+            for (uint64_t j = 0; j < ln; ++j) {
+                gen::nth_string(j, lal, 2, b);
+                vrt::Box<ST::string> sb(vrt::mk(b));
+                string_pair(*sa, a, *sb, b, true);
+                vrt::count("string.pairs");
+                vrt::count("string.locale_sensitive_pairs");
+                if (ambient::is_hostile()) vrt::count("string.locale_sensitive_pairs_under_hostile_locale");
+            }
+            case_map(*sa, a);
+            vrt::count("casemap.strings");
+            if (ambient::is_hostile()) vrt::count("casemap.strings_under_hostile_locale");
+            vrt::distinct(vrt::fnv1a(a.data(), a.size(), 36));
+        });
+    }
+
+    scale_phases();
 
     buffer_phase<char>("char", std::vector<char>{0, 1, 'A', 'a', 0x7f, static_cast<char>(0x80), static_cast<char>(0xff)});
     buffer_phase<wchar_t>("wchar_t", std::vector<wchar_t>{0, 1, L'A', 0x7f, 0x80, 0xff, 0xd800, 0xffff, 0x10ffff});
